@@ -251,6 +251,19 @@ class Reifier:
             if z3.is_true(self.ev(z3.Select(h, kt))):
                 sv = self.ev(z3.Select(v, kt))
                 data[k] = sv.as_string() if z3.is_string_value(sv) else self.parse_str(sv)
+                # Params.objects(key) is an uninterpreted list-valued function of the value in the encoding: give the
+                # replay a value whose real whitespace split is the list the model chose
+                try:
+                    if k not in getattr(self.eng, "objects_param_keys", ()):
+                        raise KeyError(k)
+                    from contracts.schema import params_objects_fn
+                    lst = self.value(Seq(STR), params_objects_fn(sv))
+                    items = [x["v"] for x in lst.get("items", [])] if isinstance(lst, dict) else None
+                    if items and all(isinstance(x, str) and x and not any(c.isspace() for c in x) for x in items) \
+                            and len(set(items)) == len(items):
+                        data[k] = " ".join(items)
+                except Exception:
+                    pass
         return data
 
     # ------------------------------------------------------------------ entry point
